@@ -80,7 +80,7 @@ func Solve(script string, quantified bool, timeoutS int, seed int, all bool) *So
 		}
 		return script
 	}
-	quick := 2
+	quick := 3
 	if timeoutS < quick {
 		quick = timeoutS
 	}
@@ -99,6 +99,11 @@ func Solve(script string, quantified bool, timeoutS int, seed int, all bool) *So
 		return res
 	}
 	cfgs := solverConfigs(timeoutS, seed)
+	if quantified {
+		cfgs = []SolverCfg{cfgs[1], cfgs[2], cfgs[0]} // cvc5, cvc5 --enum-inst, z3 5.1
+	} else {
+		cfgs = []SolverCfg{cfgs[0], cfgs[1], cfgs[4], cfgs[3]} // z3 5.1, cvc5, cvc5 int-blast, z3 4.8
+	}
 	type r struct {
 		cfg     SolverCfg
 		st, out string
@@ -185,6 +190,43 @@ func hasQuant(ts []*Term) bool {
 	return false
 }
 
+// ufAxioms: axioms about uninterpreted functions standing for trusted libraries,
+// added when the functions occur in a script.
+func ufAxioms(s *Script) []string {
+	var out []string
+	// freshly allocated memory is zero: reads of the initial arrays at regions allocated
+	// during the execution (region id > 0) give the zero value
+	for _, d := range s.decls {
+		if !strings.HasPrefix(d, "(declare-const |mem_") || !strings.Contains(d, "@0| ") {
+			continue
+		}
+		parts := strings.SplitN(strings.TrimSuffix(strings.TrimPrefix(d, "(declare-const "), ")"), " ", 2)
+		name, srt := parts[0], Sort(parts[1])
+		_, el := srt.ArrayParts()
+		z := zeroOf(el)
+		if z == nil {
+			continue
+		}
+		out = append(out, fmt.Sprintf("(forall ((a Addr)) (! (=> (> (rg a) 0) (= (select %s a) %s)) :pattern ((select %s a))))", name, constSMTAny(z), name))
+	}
+	_, e := s.ufs["aes_enc"]
+	_, d := s.ufs["aes_dec"]
+	if e || d {
+		if !e {
+			s.ufs["aes_enc"] = "(declare-fun aes_enc ((_ BitVec 128) (_ BitVec 128)) (_ BitVec 128))"
+		}
+		if !d {
+			s.ufs["aes_dec"] = "(declare-fun aes_dec ((_ BitVec 128) (_ BitVec 128)) (_ BitVec 128))"
+		}
+		if e && d {
+			out = append(out,
+				"(forall ((k (_ BitVec 128)) (x (_ BitVec 128))) (! (= (aes_dec k (aes_enc k x)) x) :pattern ((aes_enc k x))))",
+				"(forall ((k (_ BitVec 128)) (x (_ BitVec 128))) (! (= (aes_enc k (aes_dec k x)) x) :pattern ((aes_dec k x))))")
+		}
+	}
+	return out
+}
+
 func (o *Obligation) Script(specText string, predeclared map[string]bool) (string, bool, []string) {
 	s := NewScript()
 	var asserts []string
@@ -193,6 +235,7 @@ func (o *Obligation) Script(specText string, predeclared map[string]bool) (strin
 		asserts = append(asserts, s.Ref(a))
 	}
 	asserts = append(asserts, s.Ref(Not(o.Goal)))
+	asserts = append(asserts, ufAxioms(s)...)
 	// values to query: scalar variables
 	var names []string
 	for n := range s.declSet {
@@ -236,6 +279,7 @@ func batchScript(os_ []*Obligation) (string, bool) {
 		insts = append(insts, "(and "+strings.Join(parts, " ")+")")
 	}
 	asserts := []string{"(or " + strings.Join(insts, " ") + " false)"}
+	asserts = append(asserts, ufAxioms(s)...)
 	return s.Render("", "", nil, asserts, "(check-sat)\n"), hasQuant(all)
 }
 
@@ -343,4 +387,14 @@ func (p *PruneSolver) Feasible(assumes []*Term) bool {
 	script := s.Render("", "", nil, asserts, "(check-sat)\n")
 	st, _, _ := runSolver(solverConfigs(2, 0)[0], script, 4*time.Second)
 	return st != "unsat"
+}
+
+func constSMTAny(t *Term) string {
+	if t == NilAddr {
+		return "(mkaddr 0 pnil)"
+	}
+	if t.Op == "fpconst" {
+		return fpConstSMT(t)
+	}
+	return constSMT(t)
 }
